@@ -142,6 +142,9 @@ package cache
 //@   ensures "copy-fails" [C11] implies(old(known(fs, name)) && !old(infoDir(world(), knownInfo(fs, name))) && !old(complete(fs, name)) && old(srcOpenErr(world(), fs, name)) == nil &&
 //@                     old(apply(fs.options.RetainData, name, knownInfo(fs, name))) && !old(copyOK(srcOpenW(world(), fs, name), fs, name, srcOpenF(world(), fs, name), knownInfo(fs, name))),
 //@                     f == nil && err != nil && !complete(fs, name))
+//@   ensures "retained-copy-is-kept" [C10 C11] implies(old(known(fs, name)) && !old(infoDir(world(), knownInfo(fs, name))) && !old(complete(fs, name)) && old(srcOpenErr(world(), fs, name)) == nil &&
+//@                     old(apply(fs.options.RetainData, name, knownInfo(fs, name))) && old(copyOK(srcOpenW(world(), fs, name), fs, name, srcOpenF(world(), fs, name), knownInfo(fs, name))),
+//@                     complete(fs, name))   // a file the policy retains is copied on its first Open and marked, whatever its size: later Opens are served from the store
 //@   ensures "not-retained" [C10] implies(old(known(fs, name)) && !old(infoDir(world(), knownInfo(fs, name))) && !old(complete(fs, name)) && old(srcOpenErr(world(), fs, name)) == nil &&
 //@                     !old(apply(fs.options.RetainData, name, knownInfo(fs, name))), f == old(srcOpenF(world(), fs, name)) && err == nil && completeSame(fs))
 //@   ensures "gate" [C04 C05] implies(!VP(name) && !old(known(fs, name)), f == nil && errIs(err, hackpadfs.ErrInvalid) && world() == old(world()) && completeSame(fs) && infoSame(fs))
